@@ -43,6 +43,12 @@ print(json.dumps(out))
 """
 
 
+def objsig(case):
+    """explicit signature of the object (a reordering / extension of the base's signature), or None for the base's own"""
+    sg = case.get("objsig")
+    return list(sg) if sg else None
+
+
 def build(case, names):
     from inference.preocf import PreOCF
 
@@ -51,9 +57,9 @@ def build(case, names):
         warnings.simplefilter("ignore")
         if case["kind"] == "z":
             facts = [core.f_pysmt(f, names) for f in case["facts"]] or None
-            o = PreOCF.init_system_z(bb, facts=facts, extended=case["extended"], metadata=dict(case["meta"]))
+            o = PreOCF.init_system_z(bb, signature=objsig(case), facts=facts, extended=case["extended"], metadata=dict(case["meta"]))
         elif case["kind"] == "c":
-            o = PreOCF.init_random_min_c_rep(bb, metadata=dict(case["meta"]))
+            o = PreOCF.init_random_min_c_rep(bb, signature=objsig(case), metadata=dict(case["meta"]))
         else:
             worlds = lean_order_worlds(case["n"])
             o = PreOCF.init_custom(dict(zip(worlds, case["ranks"])), signature=list(names), metadata=dict(case["meta"]))
@@ -192,11 +198,11 @@ def impl_eval(case):
                     o.export_impacts(ip, fmt=fmt)
                     with warnings.catch_warnings():
                         warnings.simplefilter("ignore")
-                        o2 = RandomMinCRepPreOCF.init_with_impacts(bb, ip)
+                        o2 = RandomMinCRepPreOCF.init_with_impacts(bb, ip, signature=objsig(case))
                     res[fmt] = observe(o2, case, names)
                 with warnings.catch_warnings():
                     warnings.simplefilter("ignore")
-                    o3 = RandomMinCRepPreOCF.init_with_impacts_list(bb, list(imp))
+                    o3 = RandomMinCRepPreOCF.init_with_impacts_list(bb, list(imp), signature=objsig(case))
                 res["list"] = observe(o3, case, names)
                 out["impacts_rt"] = res
                 # validation: wrong size / negative / non-int must be refused
@@ -270,7 +276,7 @@ def compare(case, impl):
         return fails
     if not impl["after_save_state_same"]:
         fail("successful save changes the in-memory object", False, True)
-    worlds = lean_order_worlds(case["n"])
+    worlds = lean_order_worlds(len(case["objsig"]) if case.get("objsig") else case["n"])
     want_cached = {w: (ref["ranks"][w] if w in case["precomputed"] or case["kind"] == "custom" else None) for w in worlds}
     if impl["loaded_cached"] != want_cached:
         fail("loaded object's partial rank cache differs from the saved one", impl["loaded_cached"], want_cached)
@@ -363,6 +369,17 @@ def run(ctx):
             if rng.random() < 0.3:
                 case["facts"] = [core.gen_formula(rng, n, 1, 0.0)]
                 case["extended"] = rng.choice([None, True])
+        if kind != "custom" and rng.random() < 0.4:
+            # the object lives over an explicit signature: the base's atoms reordered, sometimes with an extra atom
+            sg = list(core.names_for(n))
+            rng.shuffle(sg)
+            if rng.random() < 0.4:
+                sg.insert(rng.randint(0, len(sg)), "zz")
+            case["objsig"] = sg
+            worlds = lean_order_worlds(len(sg))
+            case["precomputed"] = rng.sample(worlds, rng.randint(0, len(worlds)))
+            rest = [w for w in worlds if w not in case["precomputed"]]
+            case["lazy"] = rng.sample(rest, min(len(rest), 2))
         if kind == "custom":
             case["ranks"] = [rng.randint(0, 5) for _ in worlds]
             case["precomputed"] = []
@@ -375,6 +392,8 @@ def run(ctx):
             ctx.bump("not_constructible:" + impl["build_err"].split(":")[0])
             continue
         ctx.bump(f"kind={c['kind']}")
+        if c.get("objsig"):
+            ctx.bump("explicit_signature=" + ("extended" if len(c["objsig"]) > c["n"] else "reordered"))
         ctx.bump(f"precomputed={'none' if not c['precomputed'] else 'all' if not c['lazy'] and c['kind'] != 'custom' else 'some'}")
         for f in c["failures"]:
             ctx.bump(f"failure={f.split(':')[0]}")
